@@ -68,6 +68,10 @@ def unary_programs(tier, hi):
             out.append((node, p.params, p.cons))
     for labs, node, p in templates.unary_sequences(X, LEAFCOLS, 3, "std", slice_hi=hi, labels=D3):
         out.append((node, p.params, p.cons))
+    # projections that drop exactly what was calculated last (the calculation is elided, the projection may vanish with it)
+    for labs, node, p in templates.unary_sequences(X, LEAFCOLS, 3, "std", slice_hi=hi, labels=("calc d", "calc e", "proj -e", "proj -d", "sel a>k", "dedup")):
+        if ("proj -e" in labs or "proj -d" in labs) and (node, p.params, p.cons) not in out:
+            out.append((node, p.params, p.cons))
     if tier == "thorough":
         for labs, node, p in templates.unary_sequences(X, LEAFCOLS, 4, "std", slice_hi=hi,
                                                        labels=("sort total", "slice s:e", "dedup", "proj -b", "sel a>k")):
